@@ -373,6 +373,8 @@ struct Dumper {
       if (P->hasDefaultArg() && !P->hasUninstantiatedDefaultArg() &&
           !P->hasUnparsedDefaultArg())
         p["default"] = stmtId(C, P->getDefaultArg());
+      else if (P->hasUninstantiatedDefaultArg())
+        p["default"] = stmtId(C, P->getUninstantiatedDefaultArg());
       ps.push_back(std::move(p));
     }
     fo["params"] = std::move(ps);
